@@ -116,8 +116,9 @@ def generate(rng: random.Random, tier: str) -> dict:
             if crs == 4326:
                 ps = rng.choice([0.1, 0.01, 0.00025])
             ox, oy = (rng.uniform(-50, 50), rng.uniform(-40, 40)) if crs == 4326 else (rng.uniform(2e5, 8e5), rng.uniform(4e6, 6e6))
-            src_aff = [ps, 0.0, ox, 0.0, -ps, oy]
-            sx, sy = 1, -1
+            sx = 1 if rng.random() < 0.8 else -1  # source mirrored in x: both resolutions negative
+            sy = -1 if rng.random() < 0.85 else 1
+            src_aff = [ps * sx, 0.0, ox, 0.0, ps * sy, oy]
             scale = rng.choice([1.0, 1.0, 2.0, 0.5, 3.0, 1.7, 1 / 3.0])
             dps = ps * scale
             unit = rng.choice([1.0, 0.5, 0.3, 0.013]) * min(ps, dps)
